@@ -160,6 +160,10 @@ fn cc_attr(cc: Option<&str>) -> Vec<Attribute> {
 pub fn c16_exhaustive(ptrw: usize, first_id: usize) -> Vec<(String, Vec<(ItemPath, Module)>, usize)> {
     let mut out = vec![];
     let ccs: Vec<Option<&str>> = std::iter::once(None).chain(refprog::CONVENTIONS.iter().map(|c| Some(*c))).collect();
+    // `generated_names`: the virtual functions are named like the placeholder of the slot they
+    // sit in (`_vfunc_<slot>`) and take nothing but the receiver: they are declared functions all the
+    // same, and keep the convention they were declared with
+    for generated_names in [false, true] {
     for (ci, cc) in ccs.iter().enumerate() {
         for recv in 0..3 {
             for depth in 1..=3usize {
@@ -171,7 +175,9 @@ pub fn c16_exhaustive(ptrw: usize, first_id: usize) -> Vec<(String, Vec<(ItemPat
                         1 => args.push(Argument::MutSelf),
                         _ => {}
                     }
-                    args.push(Argument::named("a", Type::ident("u32")));
+                    if !(generated_names && name.starts_with("_vfunc_") && recv < 2) {
+                        args.push(Argument::named("a", Type::ident("u32")));
+                    }
                     let mut attrs = cc_attr(cc);
                     if let Some(a) = address {
                         attrs.push(Attribute::address(a));
@@ -182,7 +188,7 @@ pub fn c16_exhaustive(ptrw: usize, first_id: usize) -> Vec<(String, Vec<(ItemPat
                 let mut table: Vec<Function> = vec![];
                 for k in 0..depth {
                     let cc_k = ccs[(ci + k) % ccs.len()];
-                    table.push(mk_fn(&format!("vf{k}"), if k == 0 { *cc } else { cc_k }, if k == 0 { recv } else { (recv + k) % 3 }, None));
+                    table.push(mk_fn(&if generated_names { format!("_vfunc_{k}") } else { format!("vf{k}") }, if k == 0 { *cc } else { cc_k }, if k == 0 { recv } else { (recv + k) % 3 }, None));
                     let mut statements = vec![TypeStatement::vftable(table.clone())];
                     let size;
                     if k > 0 {
@@ -208,6 +214,7 @@ pub fn c16_exhaustive(ptrw: usize, first_id: usize) -> Vec<(String, Vec<(ItemPat
                 out.push((id.clone(), vec![(ItemPath::from(format!("{id}cc").as_str()), m)], ptrw));
             }
         }
+    }
     }
     out
 }
@@ -419,6 +426,15 @@ pub fn judge_c17(b: &Built, bad: &mut Vec<Bad>, stats: &mut BTreeMap<String, u64
                     *stats.entry("accessors_checked".into()).or_insert(0) += 1;
                     if f.public != expect_pub(ev.visibility) {
                         bad.push(("C17/visibility/extern-accessor".into(), format!("`{mps}::{fname}` declared {:?}, emitted pub={}", ev.visibility, f.public)));
+                    }
+                    // an extern value is not among the items whose docs must be carried over, but
+                    // whatever its accessor carries has to be its own: docs appear on no other item
+                    let own = doc_lines(&ev.attributes);
+                    if !f.docs.is_empty() {
+                        *stats.entry("documented_accessors_checked".into()).or_insert(0) += 1;
+                        if f.docs.iter().map(|d| d.trim()).collect::<Vec<_>>() != own.iter().map(|d| d.trim()).collect::<Vec<_>>() {
+                            bad.push(("C17/doc-on-other-item/extern-accessor".into(), format!("`{mps}::{fname}` carries docs {:?}, its extern value was documented {:?}", f.docs, own)));
+                        }
                     }
                 }
                 None => bad.push(("C17/accessor-missing".into(), format!("`{mps}::{fname}` not emitted"))),
@@ -1023,6 +1039,41 @@ pub fn run_c17(ctx: &mut Ctx) {
     let shapes = c17_shapes(inputs.len());
     ctx.count("edge_shape_cases", shapes.len() as u64);
     inputs.extend(shapes);
+    // several documented extern values, declared in an order that is not the order of their
+    // names, next to documented types and functions: every doc stays with its own item
+    {
+        let mut rng = Rng::derive(ctx.seed, 0x17EE);
+        let n_ev = ctx.tier.pick(40usize, 600);
+        for _ in 0..n_ev {
+            let id = format!("k{}_", inputs.len());
+            let mut names: Vec<String> = ["zeta", "alpha", "mid", "beta", "omega", "gamma"].iter().map(|s| s.to_string()).collect();
+            for i in (1..names.len()).rev() {
+                names.swap(i, rng.below(i + 1));
+            }
+            names.truncate(rng.range(2, 5));
+            let mut m = Module::new().with_attributes(Attributes(vec![Attribute::doc(" module of documented globals")]));
+            for (k, nm) in names.iter().enumerate() {
+                let mut attrs = vec![];
+                if rng.chance(2, 3) {
+                    attrs.push(Attribute::doc(&format!(" the global called {nm}")));
+                    if rng.coin() {
+                        attrs.push(Attribute::doc(&format!(" second line about {nm}")));
+                    }
+                }
+                attrs.push(Attribute::address(0x6200_0000 + k * 0x40));
+                m.extern_values.push(ExternValue::new(if rng.coin() { Visibility::Public } else { Visibility::Private }, nm, Type::ident(*rng.pick(&["u32", "u64", "u8"])), attrs));
+            }
+            let t = TypeDefinition::new([TypeStatement::field((Visibility::Public, "x"), Type::ident("u32")).with_attributes([Attribute::doc(" the field")])])
+                .with_attributes([Attribute::doc(" the type")]);
+            m.definitions.push(ItemDefinition::new((Visibility::Public, "Holder"), t));
+            m.impls.push(FunctionBlock::new(
+                "Holder",
+                [Function::new((Visibility::Public, "run"), [Argument::ConstSelf]).with_attributes(Attributes(vec![Attribute::doc(" the function"), Attribute::address(0x1200_0000)]))],
+            ));
+            inputs.push((id.clone(), vec![(ItemPath::from(format!("{id}evdoc").as_str()), m)], *rng.pick(&[4usize, 8])));
+        }
+        ctx.count("documented_extern_value_cases", n_ev as u64);
+    }
     let built: Vec<BuildOutcome> = inputs.par_iter().map(|(id, mods, ptrw)| l2::build_mods(id, mods, *ptrw)).collect();
     let mut stats = BTreeMap::new();
     let mut sampled = 0;
